@@ -324,6 +324,60 @@ from elementpath.exceptions import ElementPathError     # noqa: E402
 from elementpath.xpath31 import XPath31Parser           # noqa: E402
 
 
+# ---- deductive: AbstractDateTime.__init__ - the 24:00:00 roll-over and the proxy year of values outside 0001..9999 (real code; datetime.datetime is a ghost record) --
+from elementpath.datatypes.datetime import AbstractDateTime as _ADT, DateTime as _DateTime       # noqa: E402
+
+
+class _DTRec:
+    """ghost record of the datetime.datetime built by the constructor"""
+
+
+def init_case(S, ex):
+    year, month, day = S.int('year'), S.int('month'), S.int('day')
+    hour, minute, second, micro = S.int('hour'), S.int('minute'), S.int('second'), S.int('microsecond')
+    me = VObj(_DateTime, {'_year': VInt(0), '_dt': NONE}, name='self')
+    ghost = VObj(_DTRec, {'built': VBool(False), 'y': VInt(0), 'mo': VInt(0), 'd': VInt(0), 'h': VInt(0), 'plus_one_day': VBool(False)}, name='ghost')
+
+    def mk_datetime(ex, node, a, kw):
+        ghost.fields.update({'built': VBool(True), 'y': a[0], 'mo': a[1], 'd': a[2], 'h': a[3]})
+        return VObj(_DTRec, {'year': a[0], 'month': a[1], 'day': a[2], 'hour': a[3]}, name='dt')
+
+    def binop(ex, op, a, b):
+        if op == '+' and isinstance(a, VObj) and a.pycls is _DTRec:
+            # adding the one-day delta: recorded, the resulting calendar fields are not modelled (a fresh record)
+            ghost.fields['plus_one_day'] = VBool(True)
+            return VObj(_DTRec, {'year': VInt(ex.fresh('y_next', z3.IntSort())), 'month': VInt(ex.fresh('m_next', z3.IntSort())),
+                                 'day': VInt(ex.fresh('d_next', z3.IntSort())), 'hour': a.fields['hour']}, name='dt+1')
+        return None
+    hooks = {'datetime.datetime': mk_datetime, 'binop': binop, 'isleap': lambda ex, node, a, kw: VBool(ex.spec_call('leap', [a[0]]) if hasattr(ex, 'spec_call') else
+                                                                                                        z3.Or(z3.And(a[0].t % 4 == 0, a[0].t % 100 != 0), a[0].t % 400 == 0))}
+    return Case([me, year, month, day, hour, minute, second, micro, NONE], hooks=hooks, names={'ghost': ghost, 'me': me})
+
+
+def succ_year(y):
+    """the year after y in the numbering without a year zero"""
+    return 1 if y == -1 else y + 1
+
+
+CONTRACTS.append(Contract(
+    'AbstractDateTime.__init__.end_of_day', 'C11', lambda: _ADT.__init__, init_case,
+    pre=["year != 0 and -2147483648 <= year <= 2147483647", "1 <= month <= 12 and 1 <= day <= 31", "0 <= hour <= 24 and 0 <= minute <= 59 and 0 <= second <= 59 and 0 <= microsecond <= 999999",
+         "hour != 24 or (minute == 0 and second == 0 and microsecond == 0)"],
+    post=[('a_datetime_is_built', "returned and ghost.built"),
+          ('24h_on_31_december_is_1_january_of_the_next_year',
+           "not (hour == 24 and month == 12 and day == 31) or (ghost.mo == 1 and ghost.d == 1 and ghost.h == 0 and not ghost.plus_one_day and "
+           "(ghost.y == succ_year(year) if 1 <= succ_year(year) <= 9999 else (me._year == succ_year(year) and ghost.y == (4 if leap(succ_year(year) if succ_year(year) > 0 else succ_year(year) + 1) else 6))))"),
+          ('24h_on_another_day_is_midnight_plus_one_day',
+           "not (hour == 24 and not (month == 12 and day == 31)) or (ghost.h == 0 and ghost.plus_one_day and ghost.mo == month and ghost.d == day)"),
+          ('other_times_are_kept', "hour == 24 or (ghost.h == hour and ghost.mo == month and ghost.d == day and not ghost.plus_one_day)"),
+          ('years_outside_0001_9999_use_a_proxy_year_of_the_same_leapness',
+           "hour == 24 or 1 <= year <= 9999 or (me._year == year and ghost.y == (4 if leap(year if year > 0 else year + 1) else 6))"),
+          ('years_0001_9999_are_built_directly', "hour == 24 or not (1 <= year <= 9999) or ghost.y == year")],
+    specs=SPECS + [succ_year], native=None, expect_min_obligations=6,
+    notes=['datetime.datetime(...) is a ghost record of its arguments; `+ one day` on it is recorded, its calendar result is not modelled (covered by the bounded '
+           'stand-in components_constructors_and_implicit_timezone)']))
+
+
 def _days_from_civil(y, m, d):
     """Days from 0001-01-01 (astronomical year numbering, year 0 exists)."""
     y -= m <= 2
